@@ -55,11 +55,11 @@ func (x *Exec) libCall2(s *State, site ssa.Instruction, fn *ssa.Function, name s
 		x.used(name)
 		k(s, x.freshResult(s, site, res))
 		return true
-	case "(*os.File).Seek", "os.ReadFile", "os.Getpid":
+	case "os.ReadFile", "os.Getpid":
 		x.used(name + " (no effect on verified state)")
 		k(s, x.freshResult(s, site, res))
 		return true
-	case "bufio.NewReader", "bufio.NewScanner", "github.com/DataDog/zstd.NewReader":
+	case "bufio.NewScanner":
 		x.used(name + ": returns a non-nil reader")
 		var facts []*Term
 		v := x.E.freshVal(res.At(0).Type(), x.siteTag(site)+".rd", &facts)
@@ -201,5 +201,39 @@ func init() {
 		m := UF("re_match", SBool, pat, subj)
 		// Flag values: Default=1 Invert=2 Noop=3
 		return Ite(Eq(f0, Int(3)), TTrue, Ite(Eq(f0, Int(1)), m, Ite(Eq(f0, Int(2)), Not(m), TFalse)))
+	}
+}
+
+func init() {
+	// frame(s): the byte stream s cut into messages the way the client does it:
+	// every 0xAC is replaced by the record separator 0x1e and every "\n" is
+	// kept and followed by 0x1e. Defined by recursion on the last byte:
+	//   frame("") = "",  frame(s ++ c) = frame(s) ++ enc(c).
+	// The engine supplies the instance of this definition for each argument of
+	// the shape x[0:n] it evaluates (no quantifier reaches the solver).
+	specDefs["frame"] = func(env *SpecEnv, args []Val) Val {
+		sArg, ok := env.scalar(args[0])
+		if !ok {
+			env.errf("frame needs a byte string")
+			return Str("")
+		}
+		enc := func(c *Term) *Term {
+			return Ite(Eq(c, Str("\n")), Str("\n\x1e"), Ite(Eq(c, Str("\xac")), Str("\x1e"), c))
+		}
+		fr := func(t *Term) *Term {
+			if t.Op == "str" && t.Str == "" {
+				return Str("")
+			}
+			return UF("ufs_frame", SString, t)
+		}
+		st := env.s
+		st.assume(Eq(UF("ufs_frame", SString, Str("")), Str("")))
+		if sArg.Op == "str.substr" && sArg.Args[1].Op == "int" && sArg.Args[1].I.Sign() == 0 {
+			x, n := sArg.Args[0], sArg.Args[2]
+			prev := Substr(x, Int(0), Sub(n, Int(1)))
+			st.assume(Implies(And(Gt(n, Int(0)), Le(n, StrLen(x))), Eq(fr(sArg), Concat(fr(prev), enc(StrAt(x, Sub(n, Int(1))))))))
+			st.assume(Implies(Le(n, Int(0)), Eq(fr(sArg), Str(""))))
+		}
+		return fr(sArg)
 	}
 }
